@@ -64,8 +64,7 @@ def _accept(ctx, res, spec, cfg, must_cover=True, ignore_cov=()):
         z = vlib.zero_coverage(r, ignore_cov)
         if z:
             raise vlib.HarnessError("%s: vacuous run, actions never taken: %s" % (what, z))
-    ctx.states += r.distinct
-    ctx.transitions += r.generated
+    ctx.count(states=r.distinct, transitions=r.generated)
     ctx.engines.append("%s: %d distinct states, %d transitions, depth %d, %.1fs" % (what, r.distinct, r.generated, r.depth, r.wall))
     vlib.log(ctx.engines[-1])
     return r
